@@ -69,7 +69,12 @@ func runOne(t *testing.T, prop string, seed uint64, thorough bool, raw json.RawM
 		} else {
 			c = GenC10(seed, thorough, []int{64, 200, 1024, 4096}[(batchBase/7)%4])
 		}
-		return RunC10(t, c), c
+		res := RunC10(t, c)
+		cc := *c
+		if c.Par > 1 {
+			cc.Schedule = res.Schedule
+		}
+		return res, &cc
 	}
 	if prop == "C16" {
 		var c *C16Case
